@@ -459,3 +459,135 @@ def _w1k1b(U):
         U.run(body)
     mk(False)
     mk(True)
+
+
+# ------------------------------------------------------------------ weights_all_band_groups: sea / anti-sea completion (CumDOS corollary)
+def _wabg_unit(nb, der):
+    @unit("C14", "TetraWeights.weights_all_band_groups[nb=%d,der=%d]" % (nb, der), scope="shape:nb=%d bands, 1 k-point, 2 Fermi levels" % nb, expect_min=3)
+    def _w(U):
+        from collections import defaultdict
+        import z3
+        gbord = U.fn(F, "get_borders", globs=dict(np=NP))
+        gbir = U.fn(F, "get_bands_in_range", globs=dict(np=NP, get_borders=gbord))
+        gbelow = U.fn(F, "get_bands_below_range", globs=dict(np=NP))
+        gabove = U.fn(F, "get_bands_above_range", globs=dict(np=NP))
+        idx = U.fn(F, "TetraWeights.index_eFermi", globs=dict(np=NP))
+        w1b = U.fn(F, "TetraWeights.__weight_1b", globs=dict(np=NP))
+        w1k = U.fn(F, "TetraWeights.weight_1k1b", globs=dict(np=NP))
+        ONES = lambda n: SArr((n,), lambda i: 1.0, "real")
+        f = U.fn(F, "TetraWeights.weights_all_band_groups", globs=dict(np=NP, defaultdict=defaultdict, get_bands_in_range=gbir,
+                                                                     get_bands_below_range=gbelow, get_bands_above_range=gabove,
+                                                                     weight_select_bands=lambda a, b, s=None: 1.0, ones=ONES))
+
+        def body():
+            me = _Obj()
+            me.nk, me.nb, me.null = 1, nb, False
+            me.eFermis, me.weights = [], []
+            Ec = sym_array("eCenter", (1, nb), "real")
+            Emin = sym_array("Emin", (1, nb), "real")
+            Emax = sym_array("Emax", (1, nb), "real")
+            me.eCenter, me.Emin, me.Emax = Ec, Emin, Emax
+            for b in range(nb):
+                ctx().assume(land(Emin.get((0, b)) <= Ec.get((0, b)), Ec.get((0, b)) <= Emax.get((0, b))))
+                if b:
+                    ctx().assume(land(Emin.get((0, b - 1)) <= Emin.get((0, b)), Emax.get((0, b - 1)) <= Emax.get((0, b)), Ec.get((0, b - 1)) <= Ec.get((0, b))))
+            eF = sym_array("eF", (2,), "real")
+            ctx().assume(eF.get((0,)) <= eF.get((1,)))
+            thr = sreal("thr")
+            ctx().assume(thr >= 0)
+            VV = [z3.Function("VVb%d" % b, z3.RealSort(), z3.RealSort()) for b in range(nb)]
+
+            def priv(eFermi, ik, ib, der):
+                # contract of weight_1k1b_priv (proved above): per Fermi level the tetrahedron weight of band ib, in [0,1],
+                # 1 above all the band's corner/centre energies (+3e-12), 0 below all of them
+                out = SArr(eFermi.shape, lambda i_: SNum(VV[ib](lift(eFermi.get(i_)).t), "real"), "real")
+                for j in range(2):
+                    v, E = out.get((j,)), eFermi.get((j,))
+                    ctx().assume(land(v >= 0, v <= 1, implies(E >= Emax.get((0, ib)) + 3 * DIFF_MIN, v == 1), implies(E < Emin.get((0, ib)), v == 0)))
+                return out
+            me.weight_1k1b_priv = priv
+            me.weight_1k1b = lambda ief, ik, ib, der: w1k(me, ief, ik, ib, der)
+            setattr(me, "_TetraWeights__weight_1b", lambda ief, ik, ib, der: w1b(me, ief, ik, ib, der))
+            me.index_eFermi = lambda e_: idx(me, e_)
+            res = f(me, eF, der, degen_thresh=thr)
+            blocks = list(res[0].keys())
+            U.ensure("band blocks are pairwise disjoint index ranges", all(a[1] <= b[0] or b[1] <= a[0] for a in blocks for b in blocks if a != b)
+                     and all(0 <= a[0] < a[1] <= nb for a in blocks))
+            for j in range(2):
+                E = eF.get((j,))
+                tot = 0
+                for (a, b), w in res[0].items():
+                    tot = tot + lift(w.get((j,))) * (b - a)
+                if der == 0:
+                    U.ensure("CumDOS: all %d bands are counted at a Fermi level above every corner/centre energy (level %d)" % (nb, j),
+                             lambda E=E, tot=tot: implies(land(*[E >= Emax.get((0, b)) + 3 * DIFF_MIN for b in range(nb)]), tot == nb))
+                    U.ensure("CumDOS: nothing is counted at a Fermi level below every energy (level %d)" % j,
+                             lambda E=E, tot=tot: implies(land(*[E < Emin.get((0, b)) for b in range(nb)]), tot == 0))
+                    U.ensure("CumDOS between 0 and the number of bands (level %d)" % j, lambda tot=tot: land(tot >= 0, tot <= nb))
+                else:
+                    U.ensure("anti-sea: all bands are counted as empty at a Fermi level below every energy (level %d)" % j,
+                             lambda E=E, tot=tot: implies(land(*[E < Emin.get((0, b)) for b in range(nb)]), tot == nb))
+                    U.ensure("anti-sea: nothing counted above every energy (level %d)" % j,
+                             lambda E=E, tot=tot: implies(land(*[E >= Emax.get((0, b)) + 3 * DIFF_MIN for b in range(nb)]), tot == 0))
+            return res
+        U.run(body)
+        U.assumption("band energies at the centre and at every corner are sorted ascending in the band index (output of eigvalsh), hence so are their per-band minima/maxima")
+        U.assumption("TetraWeights.__init__ computes Emin/Emax as the per-band minimum/maximum over the centre and corner energies (exercised by the bounded stand-in)")
+
+
+for _nb in (1, 2, 3):
+    _wabg_unit(_nb, 0)
+_wabg_unit(2, -1)
+
+
+def _real_tetraweights(rng, n):
+    """bounded stand-in: real TetraWeights / TetraWeightsParal objects; CumDOS end values; independence from the call history"""
+    import numpy as np
+    from wannierberri.grid.tetrahedron import TetraWeights, TetraWeightsParal
+    fails, cases = [], 0
+    for t in range(6 if n <= 30 else 40):
+        rs = np.random.RandomState(rng.randint(0, 10 ** 6))
+        nk, nb = 2, rs.randint(1, 5)
+        par = t % 2 == 0
+        shape = (nk, 2, 2, 2, nb) if par else (nk, 4, nb)
+        base = np.sort(rs.rand(nb) * 4)
+        if t % 3 == 0 and nb > 1:
+            base[1] = base[0]                    # degenerate bands
+        corners = np.sort(base[None, None, :] + 0.3 * (rs.rand(nk, int(np.prod(shape[1:-1])), nb) - 0.5) * (0 if t % 5 == 4 else 1), axis=-1).reshape(shape)
+        centre = np.sort(base[None, :] + 0.1 * (rs.rand(nk, nb) - 0.5) * (0 if t % 5 == 4 else 1), axis=-1)
+        cls = TetraWeightsParal if par else TetraWeights
+
+        def total(obj, ef, der=0):
+            out = np.zeros((nk, len(ef)))
+            for ik, w in enumerate(obj.weights_all_band_groups(ef, der=der, degen_thresh=1e-4)):
+                for (a, b), v in w.items():
+                    out[ik] += np.asarray(v) * (b - a)
+            return out
+        lo, hi = min(corners.min(), centre.min()), max(corners.max(), centre.max())
+        ef1 = np.array([lo - 1.0, lo, (lo + hi) / 2, hi, hi + 1.0])
+        ef1b = np.linspace(float(base[0]), float(base[-1]) + 0.5, 4)          # first level exactly at a band's energy (flat band when t%5==4)
+        obj = cls(eCenter=centre, eCorners=corners)
+        bad = []
+        c1 = total(obj, ef1)
+        if not (np.allclose(c1[:, 0], 0) and np.allclose(c1[:, -1], nb) and (np.diff(c1, axis=1) >= -1e-9).all()):
+            bad.append("CumDOS not 0 -> nb, non-decreasing: %s" % c1.tolist())
+        cb = total(obj, ef1b)
+        if not ((np.diff(cb, axis=1) >= -1e-9).all() and np.allclose(cb[:, -1], nb) and (cb >= -1e-12).all()):
+            bad.append("CumDOS with the first level on a band energy: %s" % cb.tolist())
+        ef2 = ef1 + 2e-5
+        c2_hist = total(obj, ef2)                                              # same object, after ef1
+        c2_fresh = total(cls(eCenter=centre, eCorners=corners), ef2)
+        if not np.allclose(c2_hist, c2_fresh, atol=1e-12):
+            bad.append("weights depend on earlier calls with a nearby Fermi array (max diff %.2e)" % abs(c2_hist - c2_fresh).max())
+        ef3 = np.concatenate([[ef1[0] - 1], ef1])
+        c3 = total(obj, ef3)
+        if not np.allclose(c3[:, 1:], c1, atol=1e-12):
+            bad.append("CumDOS changes when a lower Fermi level is prepended")
+        cases += 1
+        if bad:
+            fails.append(dict(input=dict(nb=int(nb), parallelepiped=par, case=t), clause="tetrahedron CumDOS end values / history independence", failed=bad[:3]))
+    return dict(cases=cases, failures=fails, distinct=cases)
+
+
+Unit("C14", "TetraWeights CumDOS + history independence [real objects]", concrete=_real_tetraweights,
+     bounded_desc="real TetraWeights/TetraWeightsParal, 2 k-points, 1-4 bands (degenerate and flat bands included), Fermi arrays below/inside/above the spectrum, repeated calls with shifted and extended Fermi arrays")
